@@ -476,6 +476,21 @@ func (st *ex4State) handler(sv *ex4Server) server4.Handler {
 				mods = append(mods, dhcpv4.WithOption(dhcpv4.OptServerIdentifier(other)))
 				s.Fault("reply-foreign-server-id")
 			}
+			// siaddr ("next server") and ciaddr are the server's to fill in: neither is the server identifier
+			switch t.Weighted(4, 2, 2) {
+			case 1:
+				mods = append(mods, dhcpv4.WithServerIP(sv.ip))
+			case 2:
+				mods = append(mods, dhcpv4.WithServerIP(net.IPv4(192, 0, 2, byte(70+t.Choose(3)))))
+				s.Fault("reply-siaddr-not-server-id")
+			}
+			switch t.Weighted(4, 2, 2) {
+			case 1:
+				mods = append(mods, dhcpv4.WithClientIP(m.ClientIPAddr))
+			case 2:
+				mods = append(mods, dhcpv4.WithClientIP(net.IPv4(192, 168, byte(sv.id), byte(100+t.Choose(3)))))
+				s.Fault("reply-ciaddr-set")
+			}
 			if typ == dhcpv4.MessageTypeNak && t.Coin(1, 2) {
 				mods = append(mods, dhcpv4.WithOption(dhcpv4.OptMessage("no")))
 			}
